@@ -900,6 +900,9 @@ class Exec:
                 raise CheckerError("old is a function: old(expr)")
             if isinstance(o, ExcValue):
                 return mk_py(ExcAttr(o, attr))
+            from . import effects as _fx
+            if isinstance(o, _fx.FileH):
+                return mk_py(_fx.FileMethod(o, attr))
             try:
                 val = getattr(o, attr)
             except AttributeError:
